@@ -25,8 +25,20 @@ def check(run):
              'the loop runs while upper - lower > 1 (a strictly decreasing non-negative '
              'variant), and the result is capped at len - 1')
     run.rule('PANIC.entry', panics.RULES['PANIC.entry'])
+    import C12
+    run.rule('ORD.cmp', 'every comparator handed to sort / select_nth in the order-statistic '
+             'kernels is the null-last comparator, the descending one exactly on the reverse arms '
+             '(the winsorize bounds are vquantile / vmedian results, Spearman ranks are vrank results)')
+    for r in ('ORD.positional', 'QNT.index', 'QNT.interp', 'NULL.first-test', 'RANK.arms'):
+        run.rule(r, 'as in C12: structure of vquantile (bounds of the Quantile / Median methods) '
+                    'and vrank (Spearman)')
     for cfg in configs(run):
         F = run.facts(cfg)
+        # the bounds and the ranks come from the order statistics of C12: their comparator,
+        # index and interpolation rules are part of "the documented bounds of the valid data"
+        C12.comparators(run, F)
+        C12.quantile(run, F)
+        C12.rank(run, F)
         winsorize(run, F)
         spearman(run, F)
         half_life(run, F)
@@ -35,7 +47,7 @@ def check(run):
         'Winsorize: each of the three arms returns iter_cast::<f64>().vclip(min, max) (or the '
         'unclipped stream when the centre/spread is null), so length, null preservation and '
         'order preservation are those of clip (C13); the bounds are mirror expressions '
-        '(polynomial normal form). Spearman = vrank(false,false) of both series fed to '
+        '(polynomial normal form); the quantile / rank kernels behind them obey C12\'s comparator, index and interpolation rules. Spearman = vrank(false,false) of both series fed to '
         'vcorr_pearson. Half-life: bracket discipline of the bisection (termination variant), '
         'cap at len-1, early return 0 for empty input, and no reachable panic besides '
         'discharged sites. That the returned lag is the first crossing for a given series is a '
